@@ -82,6 +82,11 @@ def run(report, tier, seed):
     except KeyError as e:
         report.error('function under contract no longer exists: %s' % e)
         oobs = []
+    try:
+        oobs += objective_spec.pwl_loop_obligations(
+            10000 if tier == 'quick' else 60000)
+    except KeyError as e:
+        report.error('function under contract no longer exists: %s' % e)
     from contracts.py import aslinearineq_spec
     try:
         aobs = aslinearineq_spec.obligations(10000 if tier == 'quick'
@@ -105,8 +110,6 @@ def run(report, tier, seed):
         'contract reads')
     report.floor = 20
     report.not_decided += [
-        'that pwl_ineqs[i] in _inmatrixform is the first list '
-        '_aslinearineq returned for i (one assignment, not under contract)',
         'optimality / duality of the values returned (the LP solve is '
         'numerical); agreement of dense / sparse / GLPK',
         'the objective vector c and the early "already in matrix form" '
